@@ -112,40 +112,44 @@ def random_episodes(seed: int, count: int) -> list[dict]:
         else:
             leak = [Fraction(rng.randint(0, 16), 16) for _ in range(m)]
         kind = rng.choice(["id", "id", "sq", "half"])
-        observe = k % 2 == 0
-        s = seed * 1000 + k
-        ep = {"ep": k + 1, "J": J, "leak": [[x.numerator, x.denominator] for x in (leak or [Fraction(0)] * m)],
-              "f": kind, "ubits": [], "ubase": UBASE, "out": [], "bad": [], "seed": s, "leak_given": leak is not None}
-        try:
-            from torchjd.aggregation import GradDrop
-            if leak is None:
-                f = f_callable(kind)
-                A = GradDrop() if f is None else GradDrop(f=f)
-            else:
-                A = make_graddrop(kind, leak)
-            torch.manual_seed(s)
-            Jt = torch.tensor(J, dtype=torch.float64)
-            if observe:
-                with Interpose("rand") as ip:
-                    out = A(Jt)
-                if len(ip.calls) == 1 and tuple(ip.calls[0].shape) == (n,):
-                    ep["ubits"] = [int(math.floor(float(u) * UBASE)) for u in ip.calls[0].tolist()]
-                else:
-                    ep["note"] = f"torch.rand called {len(ip.calls)} times"
-            else:
-                out = A(Jt)
-        except Exception as ex:                              # noqa: BLE001
-            ep["exc"] = f"{type(ex).__name__}: {str(ex)[:200]}"
-            eps.append(ep)
-            continue
-        vals = out.tolist()
-        ep["float_out"] = vals
-        for c, x in enumerate(vals):
-            q = Fraction(float(x)) if x == x and abs(x) != float("inf") else None
-            if q is None or q.denominator > 4096 or abs(q.numerator) > 2 ** 24:
-                ep["bad"].append(c + 1)
-                ep["out"].append([0, 1])
-            else:
-                ep["out"].append([q.numerator, q.denominator])
-        eps.append(ep)
+        eps.append(observe_call(k + 1, J, leak, kind, seed * 1000 + k, k % 2 == 0))
     return eps
+
+
+def observe_call(ep_id: int, J, leak, kind: str, s: int, observe: bool) -> dict:
+    """One real GradDrop call under torch.manual_seed(s), logged as an episode for TraceGradDrop."""
+    m, n = len(J), len(J[0])
+    ep = {"ep": ep_id, "J": J, "leak": [[x.numerator, x.denominator] for x in (leak or [Fraction(0)] * m)],
+          "f": kind, "ubits": [], "ubase": UBASE, "out": [], "bad": [], "seed": s, "leak_given": leak is not None,
+          "observe": observe}
+    try:
+        from torchjd.aggregation import GradDrop
+        if leak is None:
+            f = f_callable(kind)
+            A = GradDrop() if f is None else GradDrop(f=f)
+        else:
+            A = make_graddrop(kind, leak)
+        torch.manual_seed(s)
+        Jt = torch.tensor(J, dtype=torch.float64)
+        if observe:
+            with Interpose("rand") as ip:
+                out = A(Jt)
+            if len(ip.calls) == 1 and tuple(ip.calls[0].shape) == (n,):
+                ep["ubits"] = [int(math.floor(float(u) * UBASE)) for u in ip.calls[0].tolist()]
+            else:
+                ep["note"] = f"torch.rand called {len(ip.calls)} times"
+        else:
+            out = A(Jt)
+    except Exception as ex:                              # noqa: BLE001
+        ep["exc"] = f"{type(ex).__name__}: {str(ex)[:200]}"
+        return ep
+    vals = out.tolist()
+    ep["float_out"] = vals
+    for c, x in enumerate(vals):
+        q = Fraction(float(x)) if x == x and abs(x) != float("inf") else None
+        if q is None or q.denominator > 4096 or abs(q.numerator) > 2 ** 24:
+            ep["bad"].append(c + 1)
+            ep["out"].append([0, 1])
+        else:
+            ep["out"].append([q.numerator, q.denominator])
+    return ep
